@@ -247,7 +247,7 @@ func vectorCases(yield func(Case)) {
 
 func TestLegacy(t *testing.T) {
 	pbt.Run(t, pbt.Sub[Case]{
-		Name: subName, Quick: 2400, Thorough: 40000,
+		Name: subName, Quick: 2400, Thorough: 24000,
 		Gen:      genCase,
 		Check:    check,
 		Enum:     func(tier string, yield func(Case)) { vectorCases(yield) },
